@@ -356,6 +356,8 @@ def run(report, p):
     lazy_reuse_rule(report, p, 'R18.8', [need(cmds, 'flatten').qual, need(cmds, 'verify').qual], 'flatten / verify -pl')
 
     # ---- rules shared with other properties (same mechanism, same rule, reported under every property it can break)
+    include_rules(report, p, 'c09', ['R9.1'], 'the verdict of the verification worker must be used by every caller, the -pl dispatch included')
+    include_rules(report, p, 'c03', ['R3.6'], 'verify -pl must turn discrepancies into its exit code')
     include_rules(report, p, 'c03', ['R3.16'], 'flatten and verify -pl must reach their exit decision')
     include_rules(report, p, 'c04', ['R4.2'], 'verify -pl finds the reference digest of a file through the `original` lookup: a flattened manifest mixes original and verified entries in format order, so the lookup must look at every entry of the record')
     # ------------------------------------------------------------------ R18.9
